@@ -12,6 +12,9 @@ oracle (implementation only, no Lean):
           download depth once everything was uploaded,
       (3) equal Build-Id => equal result, over everything the world produced (stale / foreign artifacts),
       (4) wrong predictions are recovered; the recorded build-id of every cooked package is the final one;
+      (5) two project states that differ only in the sources of one package => another Build-Id for every package that
+          consumes it (result or strongly used tool, transitively); a directed world has ONE step with weakly and strongly
+          used tools in both name orders (tools reached through `use: [tools]` only) and edits every strong tool in turn,
       plus the trace form of "accepted => verified" on every real download.
 correspond (needs drv_c07):
   (C1) the unit stream against `Download.dlOps` (micro-operation list, outcome, final state), the mode table and
@@ -20,6 +23,10 @@ correspond (needs drv_c07):
        depth and archive entry (built / downloaded decision and the `inputs` form written);
   (C3) every real invocation without workspace history against `Download.cook` on the dumped package tree:
        per package downloaded / built, order of the package level operations.
+  (C4) the Build-Id of every build / package step of every real invocation (as logged from `__getBuildIdSingle`) against
+       `Digest.buildId` with SHA-1, bit-exact, from the dumped step description (digest script, sorted tools with weak
+       flag, digestEnv, arguments), the logged Build-Ids of its inputs and the logged fingerprint; histogram `bid-step`
+       (no tools / strong only / weak only / weak<strong / strong<weak / both orders).
 """
 import copy
 import hashlib
@@ -389,7 +396,7 @@ def run_unit_batch(ctx, cases, tag):
 
 # =============================================================================================== worlds
 
-N_DIRECTED = 6
+N_DIRECTED = 7
 
 
 def _mini_pkg(deps=(), src=True, **kw):
@@ -409,7 +416,7 @@ def directed_world(k, r):
     def run(ws, st, download="no", upload=False, h="h1", check=False, expect_all=False, fresh=False):
         steps.append({"do": "run", "ws": ws, "state": st, "download": download, "upload": upload, "host": h,
                       "develop": dev, "check": check, "expect_all": expect_all, "fresh": fresh})
-    k = {0: 0, 1: 1, 2: 2, 3: 3, 4: 4, 5: 5}.get(k, 2)
+    k = {0: 0, 1: 1, 2: 2, 3: 3, 4: 4, 5: 5, 6: 6}.get(k, 2)
     if k == 0:
         # same recipes and sources, other host fingerprint: the artifact of host h1 must not be taken on h2
         proj = {"pkgs": {"p0": _mini_pkg(["p1"], fingerprint=True), "p1": _mini_pkg()}, "env": {}, "serial": 1}
@@ -470,6 +477,38 @@ def directed_world(k, r):
         run("B", 1, download="packages", check=True)
         kind = "mispredict-diamond"
         return {"kind": kind, "states": states, "steps": steps, "tseed": r.randrange(1 << 30), "pkgre": "^p1$"}
+    elif k == 6:
+        # one step with weakly AND strongly used tools, in both name orders (a weak tool name sorts before a strong one
+        # and a strong one before a weak one; the tools are used through `use: [tools]` only, so that nothing but the
+        # tool digest carries the difference): every strong tool changes its sources in turn, the consumer's artifact
+        # of the earlier state must not be taken; finally a weak tool changes
+        n = r.choice([3, 3, 4])
+        tnames = sorted(r.sample(["ab", "b", "ba", "c0", "m", "p1", "p2", "zz"], n))
+        while True:
+            wk = [r.random() < 0.5 for _ in tnames]
+            w_before_s = any(wk[i] and not wk[j] for i in range(n) for j in range(i + 1, n))
+            s_before_w = any(not wk[i] and wk[j] for i in range(n) for j in range(i + 1, n))
+            if w_before_s and s_before_w:
+                break
+        deps = list(tnames)
+        r.shuffle(deps)
+        weak = [t for t, w in zip(tnames, wk) if w]
+        pkgs = {"p0": _mini_pkg(deps, useTools=list(deps), weakTools=list(weak), toolOnly=list(deps))}
+        for t in tnames:
+            pkgs[t] = _mini_pkg(tool={"path": "b1"})
+        states = [{"pkgs": pkgs, "env": {}, "serial": 1}]
+        strong = [t for t in tnames if t not in weak]
+        r.shuffle(strong)
+        for t in strong + [r.choice(weak)]:
+            nxt = copy.deepcopy(states[-1])
+            nxt["serial"] = len(states) + 1
+            nxt["pkgs"][t]["src"]["files"]["a.txt"] = "m%d" % nxt["serial"]
+            states.append(nxt)
+        run("A", 0, upload=True)
+        for i in range(1, len(states)):
+            run("B" if r.random() < 0.7 else "B%d" % i, i, download=r.choice(["yes", "yes", "packages"]), check=True,
+                upload=(i < len(states) - 1 and r.random() < 0.3))
+        return {"kind": "mixed-tools", "states": states, "steps": steps, "tseed": r.randrange(1 << 30), "pkgre": "^p0$"}
     elif k == 2:
         # a stale live-build-id file: the wrong prediction has to be recovered completely, nothing may be uploaded
         # under the ids derived from it
@@ -497,6 +536,20 @@ def gen_world(r, tier, idx=99):
     # make the interesting features likely
     if r.random() < 0.6:
         proj["pkgs"][r.choice(names)]["fingerprint"] = True
+    # one step that uses weak and strong tools together (tool names in random order relative to each other), the tools
+    # reach it through `use: [tools]` only so that only the tool digest carries a difference of the tool
+    mixed = None
+    if r.random() < 0.4:
+        cands = [nm for nm in names if len(proj["pkgs"][nm]["deps"]) >= 2]
+        if cands:
+            mixed = r.choice(cands)
+            mp = proj["pkgs"][mixed]
+            tl_ = list(mp["deps"])
+            wk = r.sample(tl_, r.randrange(1, len(tl_)))
+            mp["useTools"], mp["weakTools"], mp["toolOnly"] = list(tl_), list(wk), list(tl_)
+            for d in tl_:
+                if proj["pkgs"][d]["tool"] is None:
+                    proj["pkgs"][d]["tool"] = {"path": "b1"}
     states = [proj]
     kind = r.choice(["pair", "pair", "history", "corrupt", "corrupt", "mispredict", "mispredict", "stale"])
     n_edits = {"pair": 1, "history": 3, "corrupt": 1, "mispredict": 1, "stale": 2}[kind]
@@ -684,6 +737,7 @@ def run_world(arg):
                 res["skipped"] = "invocation %d: %s %s" % (si, obs["rc"], (obs["error"] or "")[-200:])
                 break
             summ = summarize(P, ws, obs, proj, step)
+            summ["rc"], summ["state"] = obs["rc"], step["state"]
             runs[si] = summ
             res["dlcalls"].extend(summ["dlcalls"])
             res["invs"].append(summ["inv"])
@@ -771,11 +825,73 @@ def run_world(arg):
             if o2[0] != b:
                 viol("package %s, same project state and host, different build-ids at %s and %s" % (name, o2[1], where),
                      "same-state-different-bid", None)
+        # (5) two project states that differ only in the sources of one package: every package that consumes it (its
+        # result, or a tool of it strongly; transitively) has another Build-Id, whatever else the step uses
+        if not live_tampered:
+            ok_runs = [(si, sm) for si, sm in sorted(runs.items()) if sm.get("rc") == 0]
+            seen5 = set()
+            for ai, (si, a) in enumerate(ok_runs):
+                for sj, b in ok_runs[ai + 1:]:
+                    if a["state"] == b["state"] or (a["state"], b["state"]) in seen5:
+                        continue
+                    pa, pb = world["states"][a["state"]], world["states"][b["state"]]
+                    t = src_only_diff(pa, pb)
+                    if t is None:
+                        continue
+                    count("src-only-pairs", "compared")
+                    for name in sorted(consumers_of(pb, t)):
+                        ba, bb = a["bids"].get(name), b["bids"].get(name)
+                        if ba is None or bb is None:
+                            continue
+                        mixed = bool(pb["pkgs"][name]["weakTools"]) and len(pb["pkgs"][name]["useTools"]) > len(pb["pkgs"][name]["weakTools"])
+                        count("src-only-consumer", "mixed weak/strong tools" if mixed else "plain")
+                        if ba == bb:
+                            seen5.add((a["state"], b["state"]))
+                            dl = [x for x in (si, sj) if runs[x]["dl_depth"].get(name, {}).get("downloaded")]
+                            viol("states %d and %d differ only in the sources of %s, but package %s (deps %s, strong tools %s, weak tools %s) "
+                                 "has the same Build-Id %s in both (steps %d and %d%s)" %
+                                 (a["state"], b["state"], t, name, pb["pkgs"][name]["deps"],
+                                  [d for d in pb["pkgs"][name]["useTools"] if d not in pb["pkgs"][name]["weakTools"]],
+                                  pb["pkgs"][name]["weakTools"], ba, si, sj, "; downloaded in step %s" % dl if dl else ""),
+                                 "source-change-same-build-id", {"steps": [si, sj], "changed": t, "package": name})
     finally:
         P.shutdown_servers()
         W.destroy()
     res["t"] = time.time() - res["t"]
     return res
+
+
+def src_only_diff(a, b):
+    """name of the package whose import sources are the only difference between two project states, else None"""
+    if list(a["pkgs"]) != list(b["pkgs"]) or a["env"] != b["env"]:
+        return None
+    diff = [n for n in a["pkgs"] if a["pkgs"][n] != b["pkgs"][n]]
+    if len(diff) != 1:
+        return None
+    pa, pb = a["pkgs"][diff[0]], b["pkgs"][diff[0]]
+    if not pa["src"] or not pb["src"] or pa["src"]["dir"] != pb["src"]["dir"]:
+        return None
+    if {k: v for k, v in pa.items() if k != "src"} != {k: v for k, v in pb.items() if k != "src"}:
+        return None
+    return diff[0]
+
+
+def consumers_of(proj, t):
+    """t and the packages whose result depends on the content of package t by the recipes: through a dependency whose
+    result is used, or through a strongly used tool - a weakly used tool alone does not count"""
+    aff = {t}
+    changed = True
+    while changed:
+        changed = False
+        for name, pkg in proj["pkgs"].items():
+            if name in aff:
+                continue
+            for d in pkg["deps"]:
+                if d in aff and (d not in pkg.get("toolOnly", []) or (d in pkg["useTools"] and d not in pkg["weakTools"])):
+                    aff.add(name)
+                    changed = True
+                    break
+    return aff
 
 
 def summarize(P, ws, obs, proj, step):
@@ -861,7 +977,7 @@ def summarize(P, ws, obs, proj, step):
         if v is not None:
             inp[s["name"]] = ch.canon_inputs(v)
     inv = {"dump": obs["dump"], "log": [e for e in obs["log"] if e[0] in
-                                          ("bid", "srcbid", "mispredict", "dlEnter", "dlExit", "download", "run", "upload", "setInputs")],
+                                          ("bid", "srcbid", "fp", "mispredict", "dlEnter", "dlExit", "download", "run", "upload", "setInputs")],
            "rc": obs["rc"], "argv": obs["argv"]}
     return {"bids": bids, "live": live, "fresh": fresh & set(results), "touched": touched & set(results), "ran_pkgs": ran, "counts": counts, "dl_depth": dl_depth,
             "dlcalls": dlcalls, "requested": requested, "missing_forced": missing_forced, "mispredicts": mispredicts,
@@ -1012,6 +1128,25 @@ def correspond(ctx):
         if d is not None:
             ctx.disagree("real _downloadPackage call == Download.dlOps (decision, ops, inputs form)", {"enter": call["enter"], "exit": call["exit"]},
                          [o[:1] + o[2:] for o in call["ops"]], {"diff": d, "model": rep})
+    # ---- (C4) Build-Ids of the real invocations, bit-exact
+    breqs, bmeta, bseen = [], [], set()
+    for w, res in worlds:
+        for inv in res["invs"]:
+            for q, want, path, cat in bid_requests(inv):
+                k = json.dumps(q, sort_keys=True)
+                ctx.count("bid-step", cat)
+                if k in bseen:
+                    continue
+                bseen.add(k)
+                breqs.append(q)
+                bmeta.append((want, path, cat, inv["argv"], w["kind"]))
+    breps = ctx.lean(DRIVER, breqs) if breqs else []
+    for q, (want, path, cat, argv, wkind), rep in zip(breqs, bmeta, breps):
+        ctx.case(key=("bid", json.dumps(q, sort_keys=True)))
+        ctx.trace_validated(1)
+        if rep.get("ok") != want:
+            ctx.disagree("Build-Id computed by the builder (StepIR.getDigestCoro, relaxTools) == Digest.buildId with SHA-1",
+                         {"world": wkind, "argv": argv, "step": path, "tools": cat, "req": q}, want, rep.get("ok", rep))
     creqs, cmeta = [], []
     for w, res in worlds:
         for inv in res["invs"]:
@@ -1029,6 +1164,48 @@ def correspond(ctx):
         if d is not None:
             ctx.disagree("real invocation == Download.cook (per package downloaded/built, package level ops)", {"argv": inv["argv"]},
                          d.get("impl"), d.get("model"))
+
+
+def bid_requests(inv):
+    """(C4) the Build-Id of every build / package step of one real invocation, recomputed by Digest.buildId from the
+    dumped step description and the Build-Ids / fingerprints the builder logged for its inputs.
+    returns [(request, implementation Build-Id, step path, tool category)]"""
+    dump = inv["dump"]
+    if not dump or inv["rc"] != 0 or "platform" not in dump:
+        return []
+    log = inv["log"]
+    if any(e[0] == "mispredict" for e in log):
+        return []       # the inputs of a Build-Id change between the rounds
+    bids, fps = {}, {}
+    for e in log:
+        if e[0] == "bid":
+            bids.setdefault(e[1], set()).add(json.dumps(e[3]))
+        elif e[0] == "fp":
+            fps.setdefault(e[1], set()).add(json.dumps(e[2]))
+    if any(len(v) != 1 for v in bids.values()) or any(len(v) != 1 for v in fps.values()):
+        return []
+    bid = {p: json.loads(next(iter(v))) for p, v in bids.items()}
+    fp = {p: json.loads(next(iter(v))) for p, v in fps.items()}
+    out = []
+    for p, s in sorted(dump["steps"].items()):
+        if s["kind"] == "checkout" or not isinstance(bid.get(p), str):
+            continue
+        # the digest of a weakly used tool does not enter the Build-Id: the builder need not have computed it
+        need = [t["step"] for t in s["tools"] if not t["weak"]] + list(s["args"])
+        if any(not isinstance(bid.get(x), str) for x in need) or not isinstance(fp.get(p, ""), str):
+            continue
+        tools = [{"name": t["name"], "prov": bid.get(t["step"]) if isinstance(bid.get(t["step"]), str) else "00" * 20,
+                  "path": t["path"], "libs": list(t["libs"]), "weak": bool(t["weak"])} for t in s["tools"]]
+        wk = [bool(t["weak"]) for t in sorted(s["tools"], key=lambda t: t["name"])]
+        n = len(wk)
+        w_s = any(wk[i] and not wk[j] for i in range(n) for j in range(i + 1, n))
+        s_w = any(not wk[i] and wk[j] for i in range(n) for j in range(i + 1, n))
+        cat = ("no tools" if not wk else "weak<strong and strong<weak" if w_s and s_w else "weak<strong" if w_s
+               else "strong<weak" if s_w else "weak only" if all(wk) else "strong only")
+        req = {"op": "bid", "script": s["script"], "tools": tools, "env": [list(kv) for kv in s["env"]],
+               "args": [bid[a] for a in s["args"]], "host": fp.get(p, ""), "platform": dump["platform"]}
+        out.append((req, bid[p], p, s["kind"] + ": " + cat))
+    return out
 
 
 def real_call_request(call):
